@@ -79,3 +79,79 @@ Theorem C15_poly_wrappers : forall c x,
   poly_eval_w R_ops c x = pval c x /\ poly_evar_w R_ops c x = pval (rev c) x /\ poly_swap_w c = rev c.
 Proof. exact poly_wrappers_spec. Qed.
 Print Assumptions C15_poly_wrappers.
+
+(* ================================================================ ROUNDING ERROR OF HORNER'S RULE (C15/PolyRound.v)
+   The theorems above are about exact real arithmetic.  The following ones bound the distance between the exact value and
+   what the SAME model term returns when every multiplication and addition is followed by a rounding function rnd
+   (instance Rnd_ops rnd, Common/RoundOps.v), in the STANDARD MODEL WITH GRADUAL UNDERFLOW
+       std_model rnd eps eta :=  (forall x, |rnd x - x| <= eps |x| + eta)  /\  rnd 0 = 0  /\  0 <= eps < 1/4  /\  0 <= eta.
+   OVERFLOW IS OUTSIDE THE MODEL (rnd has unbounded range): the bounds describe a binary64 run only while every
+   intermediate result stays below 2^1024.  IEEE binary64 round-to-nearest-even satisfies the model with eps = 2^-53,
+   eta = 2^-1075 (C15_binary64_satisfies_model, by Flocq); that the C / the F64_ops run computes rnd64 of each exact
+   operation is Flocq's theorem about Coq's primitive floats (Common/RoundFlocq.v, prim_*_rnd64, finite operands, no
+   overflow) and is not re-stated here; composing it along a whole Horner loop is not proved (trusted as before).
+   For ALL coefficient counts n+1 >= 1 (induction), all real c, x (not required to be representable):
+       |computed - exact| <= ((1+eps)^(2n) - 1) sum_i |c_i| |x|^i + 2 eta (1+eps)^(2n) (1 + |x| + ... + |x|^(n-1)),
+   abs_poly c x = sum_i |c_i| |x|^i, geo q m = 1 + q + ... + q^(m-1), gamma eps k = k eps / (1 - k eps).
+   Non-vacuity: PolyRound.horner_round_id (identity rounding: bound 0, instances agree), horner_round_scale (the inexact
+   model rnd v = 9/8 v: computed 387/64 vs exact 5, inside the bound), RoundFlocq.rnd64_tie (rnd64 is not the identity). *)
+From LibaV Require Import Common.RoundOps Common.RoundFlocq C15.PolyRound.
+
+Theorem C15_horner_rounding_bound : forall (rnd : R -> R) (eps eta : R), std_model rnd eps eta ->
+  forall (c : list R) (x : R), c <> [] ->
+  let n := (length c - 1)%nat in
+  exists vr, poly_eval (Rnd_ops rnd) c x = Some vr /\ poly_eval R_ops c x = Some (pval c x) /\
+    Rabs (vr - pval c x) <= ((1 + eps) ^ (2 * n) - 1) * abs_poly c x + 2 * eta * (1 + eps) ^ (2 * n) * geo (Rabs x) n.
+Proof. exact poly_eval_round. Qed.
+Print Assumptions C15_horner_rounding_bound.
+
+(* Higham's form: gamma_(2n) * sum |c_i| |x|^i, for 2 n eps < 1 *)
+Theorem C15_horner_rounding_bound_gamma : forall (rnd : R -> R) (eps eta : R), std_model rnd eps eta ->
+  forall (c : list R) (x : R), c <> [] ->
+  let n := (length c - 1)%nat in
+  INR (2 * n) * eps < 1 ->
+  exists vr, poly_eval (Rnd_ops rnd) c x = Some vr /\ poly_eval R_ops c x = Some (pval c x) /\
+    Rabs (vr - pval c x) <= gamma eps (2 * n) * abs_poly c x + 2 * eta * (1 + gamma eps (2 * n)) * geo (Rabs x) n.
+Proof. exact poly_eval_round_gamma. Qed.
+Print Assumptions C15_horner_rounding_bound_gamma.
+
+Theorem C15_evar_rounding_bound : forall (rnd : R -> R) (eps eta : R), std_model rnd eps eta ->
+  forall (c : list R) (x : R), c <> [] ->
+  let n := (length c - 1)%nat in
+  exists vr, poly_evar (Rnd_ops rnd) c x = Some vr /\ poly_evar R_ops c x = Some (pval (rev c) x) /\
+    Rabs (vr - pval (rev c) x) <= ((1 + eps) ^ (2 * n) - 1) * abs_poly (rev c) x + 2 * eta * (1 + eps) ^ (2 * n) * geo (Rabs x) n.
+Proof. exact poly_evar_round. Qed.
+Print Assumptions C15_evar_rounding_bound.
+
+(* the public wrappers, every coefficient count including 0 *)
+Theorem C15_poly_wrappers_rounding_bound : forall (rnd : R -> R) (eps eta : R), std_model rnd eps eta ->
+  forall (c : list R) (x : R),
+  let n := (length c - 1)%nat in
+  Rabs (poly_eval_w (Rnd_ops rnd) c x - poly_eval_w R_ops c x)
+    <= ((1 + eps) ^ (2 * n) - 1) * abs_poly c x + 2 * eta * (1 + eps) ^ (2 * n) * geo (Rabs x) n /\
+  Rabs (poly_evar_w (Rnd_ops rnd) c x - poly_evar_w R_ops c x)
+    <= ((1 + eps) ^ (2 * n) - 1) * abs_poly (rev c) x + 2 * eta * (1 + eps) ^ (2 * n) * geo (Rabs x) n.
+Proof. exact poly_wrappers_round. Qed.
+Print Assumptions C15_poly_wrappers_rounding_bound.
+
+Theorem C15_abs_poly_is_sum : forall c x,
+  abs_poly c x = fold_right Rplus 0 (map (fun i => Rabs (nth i c 0) * Rabs x ^ i) (seq 0 (length c))) /\
+  abs_poly c x = pval (map Rabs c) (Rabs x).
+Proof. exact (fun c x => conj eq_refl (abs_poly_pval c x)). Qed.
+Print Assumptions C15_abs_poly_is_sum.
+
+(* IEEE binary64, round to nearest even, gradual underflow; overflow excluded (Flocq) *)
+Theorem C15_binary64_satisfies_model :
+  std_model rnd64 eps64 eta64 /\ eps64 = / 9007199254740992 /\ eta64 = / IZR (2 ^ 1075) /\
+  (forall x, rnd64 x = Flocq.Core.Generic_fmt.round Flocq.Core.Zaux.radix2 (Flocq.Core.FLT.FLT_exp (-1074) 53) (Flocq.Core.Generic_fmt.Znearest (fun z => negb (Z.even z))) x).
+Proof. exact (conj std_model_binary64 (conj eps64_val (conj eta64_val (fun x => eq_refl)))). Qed.
+Print Assumptions C15_binary64_satisfies_model.
+
+Theorem C15_horner_rounding_bound_binary64 : forall (c : list R) (x : R), c <> [] ->
+  let n := (length c - 1)%nat in
+  exists vr, poly_eval (Rnd_ops rnd64) c x = Some vr /\ poly_eval R_ops c x = Some (pval c x) /\
+    Rabs (vr - pval c x) <= ((1 + eps64) ^ (2 * n) - 1) * abs_poly c x + 2 * eta64 * (1 + eps64) ^ (2 * n) * geo (Rabs x) n /\
+    (INR (2 * n) * eps64 < 1 ->
+     Rabs (vr - pval c x) <= gamma eps64 (2 * n) * abs_poly c x + 2 * eta64 * (1 + gamma eps64 (2 * n)) * geo (Rabs x) n).
+Proof. exact poly_eval_round_binary64. Qed.
+Print Assumptions C15_horner_rounding_bound_binary64.
